@@ -851,7 +851,7 @@ def rule_r4(chk, prog):
                     out.append(int(c.value))
         return out
 
-    scopes = [fs] + [v for vs in fm.globals.values() for v in vs]
+    scopes = [fm.tree]  # the method, its helpers and module-level tables
     for sc in scopes:
         for st in ast.walk(sc):
             if isinstance(st, ast.If):
